@@ -24,7 +24,12 @@ TermCat == << [tok |-> "42", t |-> S("int", "42")],
               [tok |-> "0", t |-> S("int", "0")],
               [tok |-> "\"\"", t |-> T("str", "")],
               [tok |-> "2006-01-02T15:04:05+07:00", t |-> S("date", "1136189045")],
-              [tok |-> "hex:", t |-> S("bytes", "")] >>
+              [tok |-> "hex:", t |-> S("bytes", "")],
+              [tok |-> "hex:e1ab", t |-> S("bytes", "e1ab")],
+              [tok |-> "hex:EE00ff", t |-> S("bytes", "ee00ff")],
+              [tok |-> "9223372036854775807", t |-> S("int", "9223372036854775807")],
+              [tok |-> "$0", t |-> T("var", "0")],
+              [tok |-> "\"héllo wörld /path/to_file-1.txt\"", t |-> T("str", "héllo wörld /path/to_file-1.txt")] >>
 GroundTerms == {i \in 1..Len(TermCat) : TermCat[i].t.k # "var"}
 
 Pred(name, ts) == [name |-> name, terms |-> ts]
